@@ -68,14 +68,15 @@ def tree_listing(root):
 FINISH = {None: None, "reversed": pools.order_reversed, "rot1": pools.order_rot(1)}    # delivery order of unordered results
 
 
-def run_case(ctx, rep, p, q, vars1, vars2, model, kinds=("?", "?"), start=None, expect_refusal=None, finish=None):
+def run_case(ctx, rep, p, q, vars1, vars2, model, kinds=("?", "?"), start=None, expect_refusal=None, finish=None, cli=False):
     from amr_kitchen import PlotfileCooker
     from amr_kitchen.combine.combine import combine
     d1, d2 = ctx.newdir("c06a_"), ctx.newdir("c06b_")
     plotgen.materialize(p, d1); plotgen.materialize(q, d2)
     work = ctx.newdir("c06w_"); os.makedirs(work)
     out = os.path.join(work, "out")
-    case = {"p": p, "q": q, "vars1": vars1, "vars2": vars2, "kinds": list(kinds), "expect_refusal": expect_refusal, "finish": finish}
+    case = {"p": p, "q": q, "vars1": vars1, "vars2": vars2, "kinds": list(kinds), "expect_refusal": expect_refusal, "finish": finish, "cli": cli}
+    if cli: rep.count("console-script")
     rep.case({"p": p, "q": q, "v1": vars1, "v2": vars2}, nontrivial=(kinds[0] != "mono" or kinds[1] not in ("mono", "same")
                                                                    or vars1 is not None or vars2 is not None or bool(expect_refusal)))
     rep.count(f"layouts:{kinds[0]}/{kinds[1]}")
@@ -83,13 +84,20 @@ def run_case(ctx, rep, p, q, vars1, vars2, model, kinds=("?", "?"), start=None, 
     raised = None
     try:
         with alarm(180), quiet(), pools.controlled(start=start, finish=FINISH[finish]):
-            combine(PlotfileCooker(d1), PlotfileCooker(d2), pltout=out, vars1=vars1, vars2=vars2)
+            if cli:
+                from .. import tools
+                status = tools.combine_cli(d1, d2, out, vars1, vars2)
+                if status != 0:
+                    raised = SystemExit(status)       # a refusal the shell sees
+            else:
+                combine(PlotfileCooker(d1), PlotfileCooker(d2), pltout=out, vars1=vars1, vars2=vars2)
     except Exception as e:
         raised = e
     if expect_refusal:
         rep.count("mismatch:" + expect_refusal)
         if raised is None:
-            rep.fail(f"inputs on different meshes ({expect_refusal}) were combined without an error", case)
+            rep.fail(f"inputs on different meshes ({expect_refusal}) were combined without an error"
+                     + (" (the console script returned exit status 0)" if cli else ""), case)
         elif tree_listing(work):
             rep.fail(f"inputs on different meshes ({expect_refusal}) were refused only after writing {tree_listing(work)[:3]}", case)
         return
@@ -219,10 +227,10 @@ def run(ctx, rep, model=True):
             if ctx.quick and j not in (0, 1 + i % 7):
                 continue
             run_case(ctx, rep, p, q, v1, v2, model, kinds, start=[None, pools.order_reversed][j % 2],
-                     finish=[None, "reversed", "rot1"][(i + j) % 3])
+                     finish=[None, "reversed", "rot1"][(i + j) % 3], cli=((i + j) % 5 == 3))
         if i % 3 == 0:
             for kind, q2 in mismatches(ctx.rng, p, q):
-                run_case(ctx, rep, p, q2, None, None, model, kinds, expect_refusal=kind)
+                run_case(ctx, rep, p, q2, None, None, model, kinds, expect_refusal=kind, cli=(i % 2 == 0))
         if len(rep.violations) >= 12:
             return
     p, q = big_index_pair()
@@ -232,4 +240,4 @@ def run(ctx, rep, model=True):
 def replay(ctx, rep, obj, model=True):
     c = obj["case"]
     run_case(ctx, rep, c["p"], c["q"], c["vars1"], c["vars2"], model, tuple(c.get("kinds", ("?", "?"))),
-             expect_refusal=c.get("expect_refusal"), finish=c.get("finish"))
+             expect_refusal=c.get("expect_refusal"), finish=c.get("finish"), cli=c.get("cli", False))
